@@ -31,8 +31,10 @@ Theorem C02_exhaustion : forall mx s, Inv mx s -> active s <> [] ->
 Proof. exact MiscC02.exhaustion. Qed.
 Print Assumptions C02_exhaustion.
 
-(* in a non-empty reachable state the accepted requests are exactly the candidates *)
-Theorem C02_accepts_iff_candidate : forall mx s i, Inv mx s -> active s <> [] ->
+(* in a non-empty reachable state the accepted requests (of the box's dimension) are exactly the
+   candidates; without the length guard an all-zero index of the wrong length is accepted by the
+   model's guard although it is no candidate -- such requests are outside wf_reqs *)
+Theorem C02_accepts_iff_candidate : forall mx s i, Inv mx s -> active s <> [] -> length i = length mx ->
   (accepts s i = true <-> In i (cand s)).
 Proof. exact MiscC02.accepts_iff_cand. Qed.
 Print Assumptions C02_accepts_iff_candidate.
